@@ -109,7 +109,7 @@ pub mod rt {
         let x = any_letter();
         let mut it = It::new(x);
         it.tag = off + ll;
-        let mut node = Box::new(TreapNode { item: it, priority: pri, left: l, right: r });
+        let mut node = Box::new(TreapNode { item: it, priority: pri as _, left: l, right: r }); // `as _`: whatever integer type the library uses for priorities
         node.update();
         let mut seq = lseq | ((x as u64) << (4 * ll as u32)) | (rseq << (4 * (ll as u32 + 1)));
         let len = ll + rl + 1;
@@ -129,10 +129,10 @@ pub mod rt {
     }
 
     /// heap order, consistently parent <= child over the whole tree (C16)
-    pub fn heap_ok(t: &Link, min_pri: u32, depth: usize) -> bool {
+    pub fn heap_ok(t: &Link, min_pri: u64, depth: usize) -> bool {
         match t {
             None => true,
-            Some(n) => depth > 0 && n.priority >= min_pri && heap_ok(&n.left, n.priority, depth - 1) && heap_ok(&n.right, n.priority, depth - 1),
+            Some(n) => depth > 0 && n.priority as u64 >= min_pri && heap_ok(&n.left, n.priority as u64, depth - 1) && heap_ok(&n.right, n.priority as u64, depth - 1),
         }
     }
 
